@@ -152,8 +152,9 @@ def check_upper(case):
             jv = call(pv.calculate_partial_fluxes, feed_temperature=t, composition=comp, calculation_type=mdl)
             yy = float(j[0]) / (float(j[0]) + float(j[1])) if float(j[0]) + float(j[1]) != 0 else 0.5
             edge = max(min(yy, 1.0 - yy), 1e-300)
+            tot = abs(float(j[0])) + abs(float(j[1]))  # with back pressure the permeate-side term (~ total flux scale) can dominate
             for i in (0, 1):
-                slack = 0.0 if is_raised(jv) else 8e-16 * abs(float(jv[i])) / edge
+                slack = 8e-16 * max(tot, 0.0 if is_raised(jv) else abs(float(jv[i]))) / edge
                 require(abs(float(j[i]) - float(j2[1 - i])) <= tol * max(abs(float(j[i])), abs(float(j2[1 - i]))) + slack,
                         "solver fluxes %r, relabelled %r (expected exchanged)", (float(j[0]), float(j[1])), (float(j2[0]), float(j2[1])))
             # one-point curve and its metrics
@@ -161,7 +162,7 @@ def check_upper(case):
             dc2 = call(pv2.ideal_diffusion_curve, t, [comp2], perm["T"], perm["p"], prec, mdl)
             if not is_raised(dc) and not is_raised(dc2):
                 for i in (0, 1):
-                    slack = 0.0 if is_raised(jv) else 8e-16 * abs(float(jv[i])) / edge
+                    slack = 8e-16 * max(tot, 0.0 if is_raised(jv) else abs(float(jv[i]))) / edge
                     a, b = float(dc.partial_fluxes[0][i]), float(dc2.partial_fluxes[0][1 - i])
                     require(abs(a - b) <= tol * max(abs(a), abs(b)) + slack, "curve fluxes %r, relabelled %r (expected exchanged)",
                             dc.partial_fluxes[0], dc2.partial_fluxes[0])
